@@ -16,7 +16,7 @@ from .labelrun import CAP, LBLMAX, LUT, LV, RelabelInterp, VoxelArr, chains, dt_
 from .resultrun import Tagged
 
 INFO = {
-    "explanation": "Delegated (round 4): R03.1/R03.4 - the label map the relabelling applies holds only overlapping (ref > 0, pred > 0) pairs that met the threshold. map_instance_labels (with _map_labels and _get_smallest_fitting_uint inlined) is run symbolically for every input dtype in {uint8,16,32,64} and every voxel class of the prediction (background, matched predictions incl. two predictions of one reference, unmatched predictions): labels are exact polynomials in strictly increasing chains, the matcher's label map is {P2->R1, P3->R1, P5->R3}. Decided: (R04.1) the reference array reaches the result unchanged (same voxel value, widened at most); (R04.2/R04.5) background stays background, a matched prediction receives exactly its reference's label, every unmatched prediction receives a label provably greater than every reference label and provably different from the other fresh labels; (R04.3) the lookup table is indexed within its size; (R04.4) every value stored or cast into an integer container provably fits it under the path and domain constraints (labels <= dtype maximum for uint8/16, < 2^24 otherwise; any number of instances), otherwise a concrete witness valuation is reported; prediction and reference leave with the same dtype; (R04.6) no chained in-place relabelling. Delegated (anchored here as well): capacity table of the dtype selector (R05.4) and dtype/count plumbing of the approximator (R05.1-R05.3). Further delegated: R09.6 (the label tuples the relabelling starts from are the values present), R15.8 (relabelling never writes into its input arrays). Thorough tier: five (n_ref, n_pred, matching) configurations instead of one.",
+    "explanation": "Delegated (round 4): R03.1/R03.4 - the label map the relabelling applies holds only overlapping (ref > 0, pred > 0) pairs that met the threshold. map_instance_labels (with _map_labels and _get_smallest_fitting_uint inlined) is run symbolically for every input dtype in {uint8,16,32,64} and every voxel class of the prediction (background, matched predictions incl. two predictions of one reference, unmatched predictions): labels are exact polynomials in strictly increasing chains, the matcher's label map is {P2->R1, P3->R1, P5->R3}. Decided: (R04.1) the reference array reaches the result unchanged (same voxel value, widened at most); (R04.2/R04.5) background stays background, a matched prediction receives exactly its reference's label, every unmatched prediction receives a label provably greater than every reference label and provably different from the other fresh labels; (R04.3) the lookup table is indexed within its size; (R04.4) every value stored or cast into an integer container provably fits it under the path and domain constraints (labels <= dtype maximum for uint8/16, < 2^24 otherwise; any number of instances), otherwise a concrete witness valuation is reported; prediction and reference leave with the same dtype; (R04.6) no chained in-place relabelling. Delegated (anchored here as well): capacity table of the dtype selector (R05.4) and dtype/count plumbing of the approximator (R05.1-R05.3). Further delegated: R09.6 (the label tuples the relabelling starts from are the values present), R15.8 (relabelling never writes into its input arrays). Thorough tier: five (n_ref, n_pred, matching) configurations instead of one. Round 7: symbolic label vectors (zeros, element / masked stores with dtype-fit events, arange(a, b), isin, elementwise comparison, boolean selection) and position-wise equality of label sequences.",
     "trusted_base": ["numpy: fancy indexing table[arr], np.arange, np.array(list, dtype=...) wrap silently when a value exceeds the dtype (numpy 1.x)", "Python semantics of the modelled AST subset"],
     "assumptions": ["labels are within the property's stated domain; the matcher's label map maps prediction labels to reference labels"],
     "not_decided": ["numpy's implementation of unique / fancy indexing"],
